@@ -953,6 +953,70 @@ theorem crossval_rejects_iff (m : List α → List α → α) (fit : Nat → Pie
     simp [crossvalOn, SetsReq.run, Rsa.Folds.setsKFoldPattern, Rsa.Folds.setsKFoldRdm,
       Rsa.Folds.kOrDefault, hn, h0, Except.map]
 
+/-! ### round 5: the noise ceiling of the public `crossval` (with and without `ceil_set`) -/
+
+/-- **`crossval` without `ceil_set`** (`ceil_set=None`, the default of the public routine), for
+    *any* list of train / test sets — pattern folds, RDM folds, both, hand-built splits whose test
+    sets hold only some of the RDMs: one ceiling per *evaluated* fold, in fold order, and it is
+    `boot_noise_ceiling` of the **full data** — all `d.vecs.length` RDMs, each its own unit (the
+    `index` descriptor) — restricted to exactly the conditions the fold's prediction is restricted
+    with (`patSelection d.pdesc f.testIdx`, cf. `cv_fold_entry`); it does not depend on which RDMs
+    the test set holds.  The object and the descriptor are read off the call-site leaf
+    `ncSiteCrossval` regenerated from `evaluate.py` (seed C04-9 hands over `test[0]` instead). -/
+theorem crossval_ceiling_no_ceil_set_spec (m : List α → List α → α) (fit : Nat → Piece α → Θ)
+    (predict : Nat → Θ → List α) (ncf : NcReq α → α × α) (d : Data α) (nModels : Nat)
+    (folds : List Rsa.Folds.Fold) :
+    (∀ f : FoldV, ceilNoCeilSet ncf d f =
+      ncf (.boot (content d true
+        { rows := List.range d.vecs.length, conds := patSelection d.pdesc f.testIdx }))) ∧
+    (crossval m fit predict ncf d nModels folds false true).nc =
+      ((folds.map (foldOn (fullView d) none)).filter (fun f => !foldNaN f)).map (fun f =>
+        ncf (.boot (content d true
+          { rows := List.range d.vecs.length, conds := patSelection d.pdesc f.testIdx }))) ∧
+    (∀ f : FoldV,
+      (ceilNoCeilSetView (Rsa.Gen.C04.ncSiteCrossval 0) d f).rows = (fullView d).rows ∧
+      (ceilNoCeilSetView (Rsa.Gen.C04.ncSiteCrossval 0) d f).conds =
+        patSelection d.pdesc f.testIdx) ∧
+    (∀ f g : FoldV, f.testIdx = g.testIdx → ceilNoCeilSet ncf d f = ceilNoCeilSet ncf d g) ∧
+    ((crossval m fit predict ncf d nModels folds false true).nc.length =
+      ((folds.map (foldOn (fullView d) none)).filter (fun f => !foldNaN f)).length) := by
+  have h1 : ∀ f : FoldV, ceilNoCeilSet ncf d f =
+      ncf (.boot (content d true
+        { rows := List.range d.vecs.length, conds := patSelection d.pdesc f.testIdx })) := by
+    intro f; rfl
+  refine ⟨h1, ?_, ?_, ?_, ?_⟩
+  · simp only [crossval, Bool.not_true, Bool.false_eq_true, if_false]
+    exact List.map_congr_left (fun f _ => h1 f)
+  · intro f; exact ⟨rfl, rfl⟩
+  · intro f g h; rw [h1, h1, h]
+  · simp only [crossval, Bool.not_true, Bool.false_eq_true, if_false, List.length_map]
+
+/-- **`crossval` with a `ceil_set`**: one ceiling for the whole call, `cv_noise_ceiling` of the data
+    with exactly the ceil and test sets handed in; `calc_noise_ceil=False`: no ceiling either way;
+    for the sets of a generator call, leaving the generator's `ceil_set` out changes nothing but
+    the ceiling: same outcome (refusal or evaluations), and forwarding it is the round-3 model -/
+theorem crossval_ceiling_ceil_set_spec (m : List α → List α → α) (fit : Nat → Piece α → Θ)
+    (predict : Nat → Θ → List α) (ncf : NcReq α → α × α) (d : Data α) (nModels : Nat)
+    (folds : List Rsa.Folds.Fold) (req : SetsReq) (hc fwd calcNc : Bool) :
+    (crossval m fit predict ncf d nModels folds true true).nc =
+      [ncf (cvNcReq d (fullView d) folds)] ∧
+    (crossval m fit predict ncf d nModels folds hc false).nc = [] ∧
+    (crossval m fit predict ncf d nModels folds hc calcNc).evals =
+      (crossval m fit predict ncf d nModels folds (!hc) calcNc).evals ∧
+    crossvalOnCeil m fit predict ncf d nModels req true calcNc =
+      crossvalOn m fit predict ncf d nModels req calcNc ∧
+    ((crossvalOnCeil m fit predict ncf d nModels req fwd calcNc).toOption.map (·.evals) =
+      (crossvalOn m fit predict ncf d nModels req calcNc).toOption.map (·.evals)) ∧
+    (∀ e, crossvalOnCeil m fit predict ncf d nModels req fwd calcNc = .error e ↔
+      crossvalOn m fit predict ncf d nModels req calcNc = .error e) := by
+  refine ⟨rfl, rfl, rfl, ?_, ?_, ?_⟩
+  · simp only [crossvalOnCeil, crossvalOn, Bool.and_true]
+  · simp only [crossvalOnCeil, crossvalOn]
+    cases req.run (objOf d (fullView d)) (groupsP d).length <;> rfl
+  · intro e
+    simp only [crossvalOnCeil, crossvalOn]
+    cases req.run (objOf d (fullView d)) (groupsP d).length <;> simp [Except.map]
+
 /-- inside the bootstrap the usable-sample test rules the generator's `AssertionError` out: a
     resample that passes it has at least `k_rdm` RDM groups and `3·k_pattern ≥ k_pattern` condition
     groups, so `sets_k_fold` (called on the resample's own distinct groups, `rsel.length` of them)
@@ -1150,6 +1214,36 @@ example : evalShape (.bcv .both)
 
 /-- `crossval_rejects_iff`: 4 folds of 3 condition groups is rejected, 2 folds is accepted -/
 example : [0, 1, 2].length < 4 ∧ 1 ≤ 2 ∧ 2 ≤ [0, 1, 2].length := by decide
+
+/-- `crossval_ceiling_no_ceil_set_spec` on a fold whose test set holds ONE of three RDMs (a
+    `sets_leave_one_out_rdm` fold): the ceiling object still has all three RDMs, each its own
+    unit, at the fold's test conditions — it is not the test set (seed C04-9) -/
+example :
+    let d : Data Rat := { nCond := 4, vecs := [[1, 2, 3, 4, 5, 6], [2, 1, 4, 3, 6, 5], [3, 3, 1, 1, 2, 2]],
+                          rdesc := [0, 0, 1], pdesc := [0, 1, 2, 3] }
+    let f : FoldV := { train := ⟨[0, 1], [0, 1, 2, 3]⟩, trainIdx := [0, 1, 2, 3],
+                       test := ⟨[2], [0, 1, 2, 3]⟩, testIdx := [0, 1, 2, 3] }
+    foldNaN f = false ∧
+    (ceilNoCeilSetView (Rsa.Gen.C04.ncSiteCrossval 0) d f).rows = [0, 1, 2] ∧
+    (ceilNoCeilSetView (Rsa.Gen.C04.ncSiteCrossval 0) d f) ≠ f.test ∧
+    (content d true (ceilNoCeilSetView (Rsa.Gen.C04.ncSiteCrossval 0) d f)).rdesc = [0, 1, 2] ∧
+    (content d true (ceilNoCeilSetView (Rsa.Gen.C04.ncSiteCrossval 0) d f)).vecs.length = 3 := by
+  decide
+
+/-- … and a ceiling function that tells the two objects apart (number of RDMs it is handed) gives
+    3, not 1, for that fold -/
+example :
+    let d : Data Rat := { nCond := 4, vecs := [[1, 2, 3, 4, 5, 6], [2, 1, 4, 3, 6, 5], [3, 3, 1, 1, 2, 2]],
+                          rdesc := [0, 0, 1], pdesc := [0, 1, 2, 3] }
+    let ncf : NcReq Rat → Rat × Rat := fun r => match r with
+      | .boot o => ((o.vecs.length : Nat), 0)
+      | .cv _ _ _ => (0, 0)
+    (crossval (fun _ _ => (0 : Rat)) (fun _ _ => ()) (fun _ _ => []) ncf d 1
+      [{ train := ⟨[0, 1], [0, 1, 2, 3], [0, 1, 2, 3]⟩, test := ⟨[2], [0, 1, 2, 3], [0, 1, 2, 3]⟩,
+         ceil := none }] false true).nc = [((3 : Rat), 0)] := by
+  intro d ncf
+  rw [(crossval_ceiling_no_ceil_set_spec _ _ _ _ _ _ _).2.1]
+  decide
 
 /-- `usable_resample_sets_accepted` / `usable_tests_spec`: 2 RDM folds, 1 pattern fold on a
     resample with 2 distinct RDM groups and 3 distinct condition groups -/
